@@ -12,7 +12,7 @@ TIERS = {
     'quick': {'workers': 8, 'cases': 1800, 'timeout': 600, 'exhaustive': False},
     'thorough': {'workers': 16, 'cases': 25000, 'timeout': 3000, 'exhaustive': True},
 }
-SHAPES = ['fn', 'init', 'new', 'method']
+SHAPES = ['fn', 'init', 'new', 'method', 'callable', 'boundmethod']
 # further workloads for the property's online monitor (vf/online.py): the repository's tests and other checks' generated cases
 ONLINE = {'which': ['inject'], 'foreign': ['C04', 'C05', 'C07', 'C10', 'C12', 'C13', 'C17', 'C20'], 'n': {'quick': 40, 'thorough': 600}}
 REQUIRED_BUCKETS = (['shape:' + s for s in SHAPES] + ['api:configurable', 'api:register', 'api:external'] +
@@ -59,7 +59,7 @@ def iter_cases(ctx, rng, n):
              'kw': [x for x in ('p1', 'k') if rng.random() < 0.3], 'scope': rng.choice(['', 'a', 'a/b']), 'api': rng.choice(['configurable', 'external']),
              'bscope': rng.choice(['', '', 'a', 'a/b', 'b'])}
       continue
-    spec = probes.gen_spec(rng, shapes=[SHAPES[i % 4]])
+    spec = probes.gen_spec(rng, shapes=[SHAPES[i % 6]])
     names = list(probes.all_named(spec))
     allow, deny = spec.get('allow'), spec.get('deny')
     bindable = [x for x in names if (not allow or x in allow) and (not deny or x not in deny)]
@@ -195,7 +195,7 @@ def run_case(ctx, case):
   gin.clear_config()
   p = probes.build(spec)
   ctx.bucket('shape:' + spec['shape'])
-  ctx.bucket('api:' + ('register' if spec['shape'] == 'method' else spec['api']))
+  ctx.bucket('api:' + ('register' if spec['shape'] == 'method' else ('external' if spec['shape'] in ('callable', 'boundmethod') else spec['api'])))
   model = {}
   for scope, param, api in case['bindings']:
     value = ['B|%s|%s' % (scope, param)]   # mutable: what the function receives is a fresh copy every call
